@@ -291,7 +291,7 @@ for _cls, _mod in (('Client', 'client'), ('AsyncClient', 'async_client')):
         c.abstract('if type(e) is OSError and e.errno == 9:',
                    'chooses between two log messages only')
     else:
-        c.abstract("self.logger.warning( 'Server sent %s packet data %s, aborting',",
+        c.abstract("self.logger.warning('Server sent %s packet data %s, aborting',",
                    'log message only (names the aiohttp message type)')
         c.requires("isinstance(self.ping_interval, float) and isinstance(self.ping_timeout, float)",
                    'timing-adopted-from-open')
